@@ -90,6 +90,8 @@ func c10Meta(e c10Env) *module.MsgMetadata {
 		Conn:               &module.ConnState{Proto: "ESMTPSA", Hostname: "client.example", AuthUser: c10User, AuthPassword: c10Secret},
 	}
 	if e.OrigMap {
+		// the envelope was rewritten in front of the queue: sender and recipients the client used differ
+		m.OriginalFrom = "first-sender@origin.example"
 		m.OriginalRcpts = map[string]string{}
 		for _, r := range e.Rcpts {
 			m.OriginalRcpts[r] = "orig-" + r
@@ -294,8 +296,8 @@ func c10Run(scratch string, c c10Case) (string, string) {
 		if !(len(m.OriginalRcpts) == 0 && len(wantMap) == 0) && !reflect.DeepEqual(m.OriginalRcpts, wantMap) {
 			return "C10:original-recipients", fmt.Sprintf("%s: map %v, accepted %v", where, m.OriginalRcpts, wantMap)
 		}
-		if m.OriginalFrom != c.Env.From {
-			return "C10:original-sender", fmt.Sprintf("%s: %q vs %q", where, m.OriginalFrom, c.Env.From)
+		if want := c10Meta(c.Env).OriginalFrom; m.OriginalFrom != want {
+			return "C10:original-sender", fmt.Sprintf("%s: %q vs %q", where, m.OriginalFrom, want)
 		}
 		// what stays pending after this attempt
 		if i == 0 && (failFirst || c.History == "report-then-retry") {
